@@ -222,7 +222,7 @@ pub fn c15(plan: &crate::plan::Plan, rec: &ExecRecord) -> Vec<Violation> {
         .sum();
     match rec.outcome.class.as_str() {
         "signal" => push("killed", format!("the process died: {}", rec.outcome.detail)),
-        "cpu-exhausted" => push("hang", format!("no result within {} s of CPU time: {}", crate::child::CPU_LIMIT_S, rec.outcome.detail)),
+        "cpu-exhausted" => push("hang", format!("no result within the CPU bound ({} s by default): {}", crate::child::CPU_LIMIT_S, rec.outcome.detail)),
         "deadlock" => push("deadlock", trunc(&rec.outcome.detail, 300)),
         "steps-exhausted" => push("hang", trunc(&rec.outcome.detail, 300)),
         "ok" => {
